@@ -72,10 +72,10 @@ theorem Good.seq {α β : Type} {a : Pair α} {b : Pair β} (ha : Good a) (hb : 
 
 
 /-- the leaf of the first tier: a positioned `A_INT32` object with an in-range value -/
-def Pair.ofObj (o : Obj) (v : Int) : Pair IVal :=
-  { enc := encStep o v, dec := decStep o, val := .int v, fits := fun d => o.pos d.origin d.cursorByte + o.k ≤ d.msg.length }
+def Pair.ofObj (o : Obj) (v : IVal) : Pair IVal :=
+  { enc := encStep o v, dec := decStep o, val := v, fits := fun d => o.pos d.origin d.cursorByte + o.k ≤ d.msg.length }
 
-theorem Good.ofObj (o : Obj) (ho : o.ok) (v : Int) (hr : int32InRange o.enc o.bl v) : Good (Pair.ofObj o v) where
+theorem Good.ofObj (o : Obj) (ho : o.ok) (v : IVal) (hr : o.inRange v) : Good (Pair.ofObj o v) where
   warn_mono := encStep_warn_ge o v
   frame := fun s hw a hu => encStep_frame o v s hw a hu
   allBytes := encStep_allBytes o v
@@ -83,22 +83,18 @@ theorem Good.ofObj (o : Obj) (ho : o.ok) (v : Int) (hr : int32InRange o.enc o.bl
   origin := encStep_origin o v
   rt := by
     intro s d hall _ horig hcur hdall hlen hagree
-    obtain ⟨hk, hbl, _⟩ := ho
-    obtain ⟨hr0, hr1, hinv⟩ := int32Raw_spec o.enc hk o.bl hbl v hr
-    have hlt : (int32Raw o.enc o.bl v).toNat < 2 ^ o.bl := by
-      have : ((2 ^ o.bl : Nat) : Int) = (2:Int) ^ o.bl := by simp
-      omega
+    obtain ⟨hlt, hinv⟩ := o.raw_spec ho v hr
     have hall1 := encStep_allBytes o v s hall
     have hlen1 : o.pos s.origin s.cursorByte + o.k ≤ (encStep o v s).msg.length := by rw [encStep_length]; omega
     have hpos : o.pos d.origin d.cursorByte = o.pos s.origin s.cursorByte := by rw [horig, hcur]
-    have hread : readNum d.msg (o.pos d.origin d.cursorByte) o.k o.hl / 2 ^ o.bp % 2 ^ o.bl = (int32Raw o.enc o.bl v).toNat := by
+    have hread : readNum d.msg (o.pos d.origin d.cursorByte) o.k o.hl / 2 ^ o.bp % 2 ^ o.bl = o.raw v := by
       rw [hpos]
       have hfr := C01_frame' d.msg (encStep o v s).msg hdall hall1
         (o.pos s.origin s.cursorByte) o.bl o.bp o.hl (Nat.le_trans hlen1 hlen) hlen1
         (fun j hj => hagree _ (encStep_own_used o v s j hj))
       unfold Obj.k at hfr ⊢
       rw [hfr]
-      have := read_place_roundtrip s.msg hall (o.pos s.origin s.cursorByte) o.bl o.bp (int32Raw o.enc o.bl v).toNat o.hl hlt
+      have := read_place_roundtrip s.msg hall (o.pos s.origin s.cursorByte) o.bl o.bp (o.raw v) o.hl hlt
       simp only at this
       rw [encStep_msg]
       exact this
@@ -189,7 +185,7 @@ theorem Good.atPos {α : Type} (bytePos : Option Nat) {c : Pair α} (hc : Good c
 
 /-- descriptions of the second tier: `A_INT32` leaves and (nested) structures, with the values to encode -/
 inductive Tree where
-  | int (o : Obj) (v : Int)
+  | int (o : Obj) (v : IVal)
   | struct (name : String) (bytePos : Option Nat) (kids : List Tree)
 
 def Tree.name : Tree → String
@@ -198,7 +194,7 @@ def Tree.name : Tree → String
 
 mutual
 def Tree.okAll : Tree → Prop
-  | .int o v => o.ok ∧ int32InRange o.enc o.bl v
+  | .int o v => o.ok ∧ o.inRange v
   | .struct _ _ kids => Trees.okAll kids
 def Trees.okAll : List Tree → Prop
   | [] => True
